@@ -36,6 +36,9 @@ CHECKS = {
  "C11": ("Round-trip testing through real files in a temp dir: Hypothesis-generated networks, delimiters, casts, degenerate matrix shapes and collections; write-then-read oracle",
          "Exploration with write/read round trips: HIF for three classes (class, isolated nodes, empty edges, tail/head, three attribute levels), JSON for undirected hypergraphs, HIF/JSON collections (list and dict), and the edge-list, bipartite (also dual) and incidence-matrix text formats for every single-character delimiter and the documented casts, including 1x1, 1xm and nx1 matrices.",
          "Text formats exercised without empty edges and with labels free of whitespace/delimiter/comment characters; only complete write-then-read cycles.", "DESIGN.md#C11"),
+ "C12": ("Differential testing against brute-force recomputation from members(): Hypothesis-generated hypergraphs x the full option grid of every matrix function, entrywise comparison through the index maps",
+         "Exploration: for each generated hypergraph the whole grid order x sparse x s x weighted x rescale_per_node is evaluated and every matrix entry is compared with its textbook definition computed by the harness; symmetry, zero diagonal, zero row sums, PSD and sparse==dense are checked. One recorded known finding (K1, weighted normalised Laplacian) is reported as KNOWN-FINDING and any other deviation of that function is still a violation.",
+         "Floating-point tolerance 1e-9; degenerate shapes as listed in the evidence assumptions.", "DESIGN.md#C12"),
  "C05": ("Model-based testing: Hypothesis-generated histories applied step by step to xgi and to reference models transcribed from the docstrings (three classes), metamorphic relations for the degree-preserving moves",
          "Exploration by refinement checking against an executable specification: every op of a generated history is applied to the implementation and to the model (parametric in fresh IDs, prefix semantics for bulk calls) and the observable snapshots are compared after every step, including after rejected calls and their exception types.",
          "The models are my transcription of the documentation; inputs the documentation leaves contradictory are excluded by construction and counted (see assumptions in the evidence).", "DESIGN.md#C05"),
